@@ -8,6 +8,8 @@ expr    := (and e e) | (or e e) | (cmp op L R) | (in L (vals n|N …)) | (attr (
          | (forall v e) | (pred name) | (barevar v) | (barelit T|F)
 operand := (ch v a…) | (lit n|N) | (other index|call|flatten|selfvar|objlit|nested [chain])
 `(in L (vals …) [in|contains])`: the optional last atom is the python spelling, irrelevant to the model.
+Optional `(mult T)`: the observation is the LIST of returned rows / solutions (ascending, with repetitions) and `the`
+is judged on that list, instead of the set of entities (in-memory side: `evalMemMulti`).
 
 Output: `model=` what translate+execSql / evalMem (the definitions the theorems are about) give,
 `spec=PROP …` what the property demands (both worlds agree, or an EQLTranslationError), `trig=` open findings whose
@@ -84,6 +86,8 @@ structure Case where
   schema : Schema
   db : DB
   q : Query
+  /-- observe multiplicities (`(mult T)`): the list of rows / solutions instead of the set of entities -/
+  mult : Bool
 
 def parseCase : Sexp → Option Case
   | .list (.atom "q" :: items) => do
@@ -99,7 +103,10 @@ def parseCase : Sexp → Option Case
       | _ => none
     let schema ← (← Sexp.field? items "schema").mapM parseClass
     let db ← (← Sexp.field? items "db").mapM parseObj
-    pure ⟨schema, db, ⟨the, kind, vars, cond⟩⟩
+    let mult := match Sexp.field? items "mult" with
+      | some [b] => b.asBool?.getD false
+      | _ => false
+    pure ⟨schema, db, ⟨the, kind, vars, cond⟩, mult⟩
   | _ => none
 
 def showIds (xs : List Nat) : String := showList (xs.map toString)
@@ -111,20 +118,20 @@ def showMem (q : Query) : Option (List Nat) → String
   | none => "error"
   | some ids => if q.the then showThe (theOf ids) else showIds ids
 
-def showSql (q : Query) (rows : List Nat) : String :=
-  if q.the then showThe (theOf rows) else showIds (toSet rows)
+def showSql (q : Query) (mult : Bool) (rows : List Nat) : String :=
+  if q.the then showThe (theOf rows) else showIds (if mult then rows else toSet rows)
 
 def run (s : Sexp) : String :=
   match parseCase s with
   | none => "error=bad-case"
   | some c =>
-    let mem := showMem c.q (evalMem c.schema c.q c.db)
+    let mem := showMem c.q (if c.mult then evalMemMulti c.schema c.q c.db else evalMem c.schema c.q c.db)
     match translate c.schema c.q with
     | .error .outsideModel => "error=outside-model"
     | .error (.rejected _) => "model=rejected\tspec=PROP rejected\ttrig="
     | .error .escape => "model=escape\tspec=PROP rejected\ttrig=F-C07-3"
     | .ok sq =>
-      let sql := showSql c.q (execSql c.schema sq c.db)
+      let sql := showSql c.q c.mult (execSql c.schema sq c.db)
       let trig :=
         if sql == mem then []
         else
